@@ -8,6 +8,9 @@ package main
 import (
 	"crypto/x509"
 	"fmt"
+	"github.com/gr33nbl00d/caddy-revocation-validator/config"
+	repoocsp "github.com/gr33nbl00d/caddy-revocation-validator/ocsp"
+	"golang.org/x/crypto/ocsp"
 	"math/big"
 	"math/rand"
 	"os"
@@ -37,6 +40,9 @@ type instSpec struct {
 	// FirstFails (CDP sources): the origin fails from the start, so the very first load attempt of
 	// the location fails and the retries are first loads too
 	FirstFails bool
+	// SlowDownload: every download of the location takes this long (a big list on a slow link), and an
+	// OCSP lookup is done in the same process first (other activity of the plugin must not matter)
+	SlowDownload time.Duration
 }
 
 type setSpec struct {
@@ -52,6 +58,9 @@ func (s setSpec) String() string {
 		if i.FirstFails {
 			ff = " failing-from-the-start"
 		}
+		if i.SlowDownload > 0 {
+			ff += fmt.Sprintf(" download-takes-%v-after-an-ocsp-lookup", i.SlowDownload)
+		}
 		d += fmt.Sprintf(" [%s %s sig=%s/%s fail^%d(%s)%s %s]", i.Source, i.Fetch, i.SigMode, i.Signer, i.FailK, i.FailAs, ff, i.Backend)
 	}
 	return d
@@ -59,7 +68,7 @@ func (s setSpec) String() string {
 
 func main() {
 	run := report.New("C15", "exploration")
-	run.Rule("scenario set = 1..4 checker instances in one process (distinct work_dirs, started I/4 apart) with the real update ticker at interval I, each with one location from {crl_urls, crl_files, CDP active, CDP background}, signature mode/signer in {verify/resolvable, verify_log/unknown, none/unknown}, and an outcome history fail^k then a newly published acceptable CRL (k in {0,1,3}, failures = HTTP 500 or garbage; for CDP locations also failing from the start, so that the first load itself fails and is retried); the run lasts 12 I. Oracle (bounded progress): for every URL location every gap between the end of one fetch and the start of the next, and from the last fetch to the end of the run, is <= 3 I + 1 s; the first rejection of the newly listed serial arrives <= 3 I + 1 s after publication; a configured CRL's listed serial is rejected immediately after Provision returns. non-trivial = instance for which >= 3 fetches were observed (URL sources) and the new serial was seen rejected; distinct = set descriptor + instance index")
+	run.Rule("scenario set = 1..4 checker instances in one process (distinct work_dirs, started I/4 apart) with the real update ticker at interval I, each with one location from {crl_urls, crl_files, CDP active, CDP background}, signature mode/signer in {verify/resolvable, verify_log/unknown, none/unknown}, and an outcome history fail^k then a newly published acceptable CRL (k in {0,1,3}, failures = HTTP 500 or garbage; for CDP locations also failing from the start, so that the first load itself fails and is retried); plus one location whose every download takes 6 s in a process that also performed an OCSP lookup (bound + 2 x download time); the run lasts 12 I. Oracle (bounded progress): for every URL location every gap between the end of one fetch and the start of the next, and from the last fetch to the end of the run, is <= 3 I + 1 s; the first rejection of the newly listed serial arrives <= 3 I + 1 s after publication; a configured CRL's listed serial is rejected immediately after Provision returns. non-trivial = instance for which >= 3 fetches were observed (URL sources) and the new serial was seen rejected; distinct = set descriptor + instance index")
 	run.Assume("real time with small intervals; bounds are one-sided and generous (3 I + 1 s against a nominal period of I); a lateness probe voids a set whose 5 ms timers fire more than 450 ms late", "slow failure kinds (refused: 2 s of loader retries per pass) are used in single-instance sets only, because all instances share one process-wide refresh mutex")
 	scratch, _ := report.Scratch("C15")
 	sut.QuietStderr(filepath.Join(scratch, "stderr.log"))
@@ -102,6 +111,10 @@ func main() {
 				sets = append(sets, setSpec{ID: len(sets), Interval: iv, Instances: []instSpec{is}})
 				n++
 			}
+		}
+		// a location whose download takes 6 s, in a process that also did an OCSP lookup
+		if iv == intervals[0] {
+			sets = append(sets, setSpec{ID: len(sets), Interval: iv, Instances: []instSpec{{Source: "crl_urls", Fetch: "actively", SigMode: "verify", Signer: "resolvable", FailAs: "http500", Backend: "memory", SlowDownload: 6 * time.Second}}})
 		}
 		// multi-instance sets
 		for _, m := range []int{2, 3, 4, 2} {
@@ -153,6 +166,13 @@ func runSet(run *report.Run, s setSpec, scratch string) {
 	I := s.Interval
 	bound := 3*I + time.Second
 	total := 12 * I
+	for _, is := range s.Instances {
+		if is.SlowDownload > 0 {
+			// a download in flight at publication has to finish, the next one fetches the new list
+			bound += 2 * is.SlowDownload
+			total += 4 * is.SlowDownload
+		}
+	}
 	var lateMax atomic.Int64
 	stopProbe := make(chan struct{})
 	go func() {
@@ -211,6 +231,19 @@ func runSet(run *report.Run, s setSpec, scratch string) {
 			slow := time.Duration(0)
 			if j == 0 && len(s.Instances) > 1 {
 				slow = I * 2 / 5
+			}
+			if is.SlowDownload > 0 {
+				slow = is.SlowDownload
+				// other activity of the plugin in this process: one OCSP lookup with a healthy responder
+				oc := &repoocsp.OCSPRevocationChecker{}
+				_ = oc.Provision(&config.OCSPConfig{DefaultCacheDurationParsed: 0, TrustedResponderCerts: []*x509.Certificate{}}, l2.DebugLogger())
+				w.OCSP.Set("/ocsp", world.Responder(w.Int, nil, nil, func(*big.Int) world.OCSPStatus { return world.OCSPStatus{Status: ocsp.Good} }))
+				oleaf := w.Leaf(pki.NextSerial(), nil, []string{w.OCSP.URL("/ocsp")})
+				if _, err := oc.IsRevoked(oleaf[0], [][]*x509.Certificate{oleaf}); err != nil {
+					st.err = "ocsp lookup before the scenario failed: " + err.Error()
+					return
+				}
+				defer oc.Cleanup()
 			}
 			serve := func(body []byte) origin.Behaviour {
 				b := origin.Good(body)
@@ -345,7 +378,7 @@ func runSet(run *report.Run, s setSpec, scratch string) {
 				if nfetch == 0 {
 					cls = "never-refetched"
 				}
-				run.Violation(keyBase+"."+cls, fmt.Sprintf("%s: location not fetched for %v (bound %v = 3 I + 1 s) ending at t=%v; %d fetches after provisioning in %v", idesc, worst.Round(time.Millisecond), bound, worstAt.Round(time.Millisecond), nfetch, end.Round(time.Millisecond)), rp)
+				run.Violation(keyBase+"."+cls, fmt.Sprintf("%s: location not fetched for %v (bound %v = 3 I + 1 s [+ 2 x download time]) ending at t=%v; %d fetches after provisioning in %v", idesc, worst.Round(time.Millisecond), bound, worstAt.Round(time.Millisecond), nfetch, end.Round(time.Millisecond)), rp)
 				continue
 			}
 		}
